@@ -277,7 +277,68 @@ func runClone(payload string) string {
 	src2, dst2, _ := run()
 	mutateAll(src2.Elem(), 0)
 	indep2 := printValue(t, dst2.Elem()) == dstSnap
-	return fmt.Sprintf("ok %s eq=%d indep=%d srcsame=%d", dstSnap, b2i(eq), b2i(indep1 && indep2), b2i(srcSnap == printValue(t, mk().Elem())))
+	// storage identity (Alias.v): the addresses of all mutable storage reachable from either side
+	src3, dst3, _ := run()
+	sl, dl := map[uintptr]bool{}, map[uintptr]bool{}
+	storageLocs(src3.Elem(), sl, 0)
+	storageLocs(dst3.Elem(), dl, 0)
+	shared := 0
+	for a := range dl {
+		if sl[a] {
+			shared++
+		}
+	}
+	return fmt.Sprintf("ok %s eq=%d indep=%d srcsame=%d shared=%d locs=%d", dstSnap, b2i(eq), b2i(indep1 && indep2), b2i(srcSnap == printValue(t, mk().Elem())), shared, len(dl))
+}
+
+// storageLocs collects the addresses of the mutable storage reachable from v: backing arrays of
+// non-empty slices and byte slices, map tables, pointer targets (Alias.locs).
+func storageLocs(v reflect.Value, out map[uintptr]bool, depth int) {
+	if depth > 40 {
+		return
+	}
+	switch v.Kind() {
+	case reflect.Slice:
+		if v.IsNil() || v.Cap() == 0 {
+			return
+		}
+		if v.Type().Elem().Size() > 0 { // zero-size elements all live at runtime.zerobase
+			out[v.Pointer()] = true
+		}
+		if v.Type().Elem().Kind() != reflect.Uint8 {
+			for i := 0; i < v.Len(); i++ {
+				storageLocs(v.Index(i), out, depth+1)
+			}
+		}
+	case reflect.Array:
+		for i := 0; i < v.Len(); i++ {
+			storageLocs(v.Index(i), out, depth+1)
+		}
+	case reflect.Struct:
+		for i := 0; i < v.NumField(); i++ {
+			storageLocs(v.Field(i), out, depth+1)
+		}
+	case reflect.Map:
+		if v.IsNil() {
+			return
+		}
+		out[v.Pointer()] = true
+		for _, k := range v.MapKeys() {
+			storageLocs(v.MapIndex(k), out, depth+1)
+		}
+	case reflect.Ptr:
+		if v.IsNil() {
+			return
+		}
+		if v.Type().Elem().Size() > 0 { // zero-size targets all live at runtime.zerobase
+			out[v.Pointer()] = true
+		}
+		storageLocs(v.Elem(), out, depth+1)
+	case reflect.Interface:
+		if !v.IsNil() {
+			storageLocs(v.Elem(), out, depth+1)
+		}
+	}
 }
 
 func genClone(g *G, tier string, emit func(string)) {
